@@ -974,7 +974,7 @@ fn known_streams(c: &mut Ctx) {
         let hz = analyse(&doc, &targets);
         for f in ["toc", "outl"] {
             let req = request(&format!("one={}", f), &targets, &doc);
-            c.nontrivial(&req); c.count("toc_titles.cases");
+            if f == "toc" { c.nontrivial(&req); } c.count("toc_titles.cases");
             batch.push(Pending { case_id: c.cur, stream: "toc_titles".into(), req, doc_targets: targets.clone(), hazard: hz.clone() }); docs.push(doc.clone());
         }
     }
@@ -999,7 +999,7 @@ fn known_streams(c: &mut Ctx) {
         let hz = analyse(&doc, &targets);
         for f in ["pages", "iter", "text"] {
             let req = request(&format!("one={}", f), &targets, &doc);
-            c.nontrivial(&req); c.count("pagecycle.cases");
+            if f == "pages" { c.nontrivial(&req); } c.count("pagecycle.cases");
             batch.push(Pending { case_id: c.cur, stream: "pagecycle".into(), req, doc_targets: targets.clone(), hazard: hz.clone() }); docs.push(doc.clone());
         }
     }
